@@ -188,6 +188,7 @@ def gen_hierarchy(rng):
                     'expr': deckmod.leaf_expr(lits), 'imp': {'n': 1}, 'u': u,
                     'lat': None, 'fill': None, 'trcl': common_trcl,
                     'like': None})
+    share_container_surfaces(rng, deck)
     # some filler cells are declared with U=-n: same universe n.  (MCNP then
     # skips the truncation by the container and trusts the user that the cell
     # lies inside it; the universe the cell belongs to is n either way, which
@@ -204,6 +205,144 @@ def gen_hierarchy(rng):
     for m in sorted({c['mat'] for c in deck['cells'] if c['mat']}):
         deck['materials'][m] = ['1001', '1.0']
     return deck
+
+
+def _lits(expr):
+    """Literals of a pure intersection of signed surfaces, else None."""
+    if expr[0] == 's':
+        return [expr[1]]
+    if expr[0] == '*' and all(e[0] == 's' for e in expr[1:]):
+        return [e[1] for e in expr[1:]]
+    return None
+
+
+def share_container_surfaces(rng, deck):
+    '''Redundant but legal, and common in hand-written decks: the cells of a
+    filling universe repeat, with the SAME sense, surfaces that bound the cell
+    they fill (the planes of a box, the sphere around everything), also
+    through a second level of filling.  Only where neither the FILL nor any
+    TRCL moves anything, so that the very same surface numbers meet in the
+    generated cell.'''
+    if rng.random() > 0.4:
+        return
+    by_u = {}
+    for c in deck['cells']:
+        by_u.setdefault(c['u'], []).append(c)
+    plain = [c for c in deck['cells']
+             if c['fill'] is not None and c['fill']['tr'] is None
+             and c['trcl'] is None and _lits(c['expr']) is not None
+             and all(f['trcl'] is None for f in by_u.get(c['fill']['u'], []))]
+    rng.shuffle(plain)
+    # containers whose universe is itself filled plainly first (two levels)
+    ids = {c['id'] for c in plain}
+    plain.sort(key=lambda c: not any(f['id'] in ids
+                                     for f in by_u.get(c['fill']['u'], [])))
+    shared = deck.setdefault('c05_shared', [])
+    for cont in plain[:2]:
+        # when the universe is used by another container too, the repeated
+        # surfaces would cut it there as well: still a legal deck (the
+        # reference locates nothing where no cell of the universe is)
+        todo = [(cont['fill']['u'], _lits(cont['expr']), 1)]
+        while todo:
+            univ, lits, depth = todo.pop()
+            for cell in by_u.get(univ, []):
+                own = _lits(cell['expr'])
+                if own is None or rng.random() < 0.25:
+                    continue
+                extra = [l for l in lits if l not in own and -l not in own]
+                if not extra:
+                    continue
+                extra = rng.sample(extra, rng.randint(1, len(extra)))
+                pos = rng.randrange(len(own) + 1)
+                new = own[:pos] + extra + own[pos:]
+                cell['expr'] = deckmod.leaf_expr(new)
+                shared.append((cont['id'], cell['id'], depth))
+                if (cell['fill'] is not None and cell['fill']['tr'] is None
+                        and cell['trcl'] is None and depth < 2
+                        and all(f['trcl'] is None
+                                for f in by_u.get(cell['fill']['u'], []))):
+                    # the inner filler repeats the outer container's surfaces
+                    todo.append((cell['fill']['u'], lits, depth + 1))
+
+
+def gen_like_but_fill(rng):
+    '''`k LIKE n BUT FILL=m TRCL=...`: cell n is filled with a transformation,
+    the copy is filled with another universe WITHOUT transformation, so the
+    copy's TRCL places that universe (the transformation of n's FILL must
+    not survive in the copy).'''
+    deck = {'title': 'c05 like n but fill=m', 'cells': [], 'surfaces': [],
+            'transforms': {}, 'materials': {}, 'data': []}
+    used = set()
+    sid = [10]
+
+    def fresh(n):
+        out = []
+        for _ in range(n):
+            surf = gen_surface(rng, sid[0], used)
+            sid[0] += 1
+            deck['surfaces'].append(surf)
+            out.append(surf['id'])
+        return out
+    radius = rng.choice([1.4, 1.6, 1.8])
+    shift = [rng.choice([-3.0, 3.0]), rng.choice([-1.0, 0.0, 1.5]),
+             rng.choice([-0.5, 0.0, 1.0])]
+    deck['surfaces'].append({'id': 1, 'mn': 'so', 'params': [radius],
+                             'tr': None, 'bc': ''})
+    deck['surfaces'].append({'id': 5, 'mn': 's', 'params': shift + [radius],
+                             'tr': None, 'bc': ''})
+    base_tr = gen_tr_spec(rng, deck)
+    kind = rng.choice(['translation', 'translation', 'rotation'])
+    if kind == 'translation':
+        copy_trcl = deckmod.make_tr(shift)
+    else:
+        mat = deckmod.rotation(rng.randrange(3), rng.choice([30, 90, 120]))
+        copy_trcl = deckmod.make_tr(shift, mat, rng.random() < 0.5)
+    if rng.random() < 0.4:
+        n = 61
+        deck['transforms'][n] = copy_trcl
+        copy_trcl = ('num', n)
+
+    def cell(cid, mat, expr, u=0, fill=None, imp=1, trcl=None):
+        return {'id': cid, 'mat': mat, 'rho': '-1.0' if mat else None,
+                'expr': expr, 'imp': {'n': imp}, 'u': u, 'lat': None,
+                'fill': fill, 'trcl': trcl, 'like': None}
+    base = cell(1, 0, ('s', -1), fill={'u': 1, 'tr': base_tr})
+    if rng.random() < 0.3:
+        base['trcl'] = None
+    # (the keys besides like / but are placeholders for code that scans the
+    # cell list; rendering and the reference only read like / but)
+    copy = {'id': 2, 'like': 1,
+            'but': {'fill': {'u': 2, 'tr': None}, 'trcl': copy_trcl},
+            'u': 0, 'expr': ('s', -1), 'mat': 0, 'rho': None,
+            'imp': {'n': 1}, 'lat': None, 'fill': None, 'trcl': None}
+    deck['cells'] = [base, copy,
+                     cell(3, 3, ('*', ('s', 1), ('s', 5)), imp=rng.choice([1, 1, 0]))]
+    cid = 10
+    for univ in (1, 2):
+        n_cells = rng.choice([2, 2, 3])
+        for lits in deckmod.bsp(rng, fresh(n_cells - 1 + rng.choice([0, 1])),
+                                n_cells):
+            deck['cells'].append(cell(cid, rng.choice([1, 2]),
+                                      deckmod.leaf_expr(lits), u=univ))
+            cid += rng.choice([1, 2])
+    if rng.random() < 0.5:
+        order = deck['cells'][2:]
+        rng.shuffle(order)
+        deck['cells'] = deck['cells'][:2] + order      # LIKE after its base
+    for m in (1, 2, 3):
+        deck['materials'][m] = ['1001', '1.0']
+    deck['c05_like'] = True
+    return deck
+
+
+def like_points(rng, deck, n):
+    '''Sample points concentrated in the two filled spheres.'''
+    centre = deck['surfaces'][1]['params'][:3]
+    pts = sample_points(rng, n // 3)
+    for c in ([0.0, 0.0, 0.0], centre):
+        for _ in range(n // 3):
+            pts.append([c[i] + rng.uniform(-1.9, 1.9) for i in range(3)])
+    return pts
 
 
 def expected_provenance(chain):
@@ -286,6 +425,9 @@ def run_deck(deck, rng, options, n_points):
         return conv, 0, 0, [{'point': None, 'kind': 'file',
                              'why': 'written file is malformed: '
                                     + '; '.join(t4.errors[:3])}]
-    pts = sample_points(rng, n_points)
+    if deck.get('c05_like'):
+        pts = like_points(rng, deck, n_points)
+    else:
+        pts = sample_points(rng, n_points)
     checked, deep, failures = compare(deck, t4, pts)
     return conv, checked, deep, failures
